@@ -85,6 +85,25 @@ class Decl:
                 self.labels.append((key, ei, vals))
             else:
                 self.labels.append((key, None, vals))
+        # one program in eight: one label has many values (18-40), renamed so that name order and value order differ
+        if rng.random() < 0.125:
+            li = rng.randrange(nlabels)
+            key, ei, _ = self.labels[li]
+            n = rng.choice([18, 33, 40])
+            vals = [("k%02d" % i, "val%02d" % ((i * 7) % n)) for i in range(n)]
+            if ei is not None:
+                self.enums.append(("E%d_%d" % (idx, len(self.enums)), vals))
+                ei = len(self.enums) - 1
+            # keep the leaf count manageable: the other labels shrink to at most two values
+            for lj in range(nlabels):
+                if lj != li:
+                    k2, e2, v2 = self.labels[lj]
+                    v2 = v2[:2]
+                    if e2 is not None:
+                        self.enums.append(("E%d_%d" % (idx, len(self.enums)), v2))
+                        e2 = len(self.enums) - 1
+                    self.labels[lj] = (k2, e2, v2)
+            self.labels[li] = (key, ei, vals)
         # one program in four: two adjacent labels get boundary-shifted value families
         if nlabels >= 2 and rng.random() < 0.25:
             at = rng.randrange(nlabels - 1)
